@@ -805,6 +805,17 @@ pub fn iteration_cases() -> Vec<String> {
     "for i in 1..40 return if i = 1 then 1E-6143 else partial[-1] * partial[-1]",
     "for i in 1..40 return if i = 1 then date and time(\"999999999-12-31T23:59:59Z\") else partial[-1] + @\"P18446744073709551615D\"",
     "for i in 1..40 return if i = 1 then date(\"999999999-12-31\") else partial[-1] + @\"P999999999Y\"",
+    // a difference / sum / opposite at the limit of what a duration holds, then printed, taken apart and made absolute
+    "string(@\"-P1000000000000000000000000D\" - @\"P1000000000000000000000000D\")",
+    "(@\"-P1000000000000000000000000D\" - @\"P1000000000000000000000000D\").days",
+    "abs(@\"-P1000000000000000000000000D\" - @\"P1000000000000000000000000D\")",
+    "string(@\"-PT170141183460469231731687303715.884105727S\" - @\"PT0.000000001S\")",
+    "string(-(@\"-PT170141183460469231731687303715.884105727S\" - @\"PT0.000000001S\"))",
+    "string(@\"-P1000000000000000000000000D\" + @\"-P1000000000000000000000000D\")",
+    "[(@\"-P1000000000000000000000000D\" + @\"-P1000000000000000000000000D\").hours, (@\"P1000000000000000000000000D\" - @\"-P1000000000000000000000000D\").seconds]",
+    "string(@\"-P9223372036854775807M\" - @\"P1M\")",
+    "string(@\"P9223372036854775807M\" - @\"-P9223372036854775807M\")",
+    "(@\"-P9223372036854775807M\" + @\"-P1M\").years",
     // recursion of a user-defined function: bounded depths, and without a base case
     "{f: function(n) if n <= 0 then 0 else 1 + f(n - 1), r: f(10)}.r",
     "{f: function(n) if n <= 0 then 0 else 1 + f(n - 1), r: f(100)}.r",
